@@ -282,6 +282,23 @@ theorem failure_is_retried (cfg : Cfg) (s : Retry.State) (g : Retry.Good s) (k :
 def OkTrace (deps : List Digest) (tr : List Ev) : Prop :=
   tr = [⟨.has, .ok⟩] ∨ ∃ pre, tr = pre ++ [⟨.put, .ok⟩] ∧ Confirmed deps pre
 
+/-- **C33 (4″)** the tag is overwritten while its replication task is stored: an `Add` for the same
+(tag, destination) — whatever image digest and dependency list the new task carries (`pl'`) — has no
+effect at all on the stored task: the retry still works on the image and the dependency list it was
+added with (the pair stays together; tied by the monitors `payload-changed` and `put-before-blobs`, the
+latter keyed on the dependencies of the image that is actually PUT). -/
+theorem readd_of_stored_task_changes_nothing (cfg : Cfg) (s : CState) (k : Retry.Key) (d : Nat) (pl' : List Nat)
+    (hk : Retry.stored s.r k) :
+    cstep cfg s (.sys (.addBegin k d pl')) = s ∧
+    Retry.payloadOf (cstep cfg s (.sys (.addBegin k d pl'))).r.rows k = Retry.payloadOf s.r.rows k := by
+  have h : Retry.step s.r (.addBegin k d pl') = s.r := by
+    have hh : Retry.hasKey s.r.rows k = true := (Retry.hasKey_iff _ _).mpr hk
+    simp only [Retry.step, Retry.stepO]
+    cases s.r.mode <;> simp [hh]
+  have : cstep cfg s (.sys (.addBegin k d pl')) = s := by
+    simp only [cstep, h]
+  exact ⟨this, by rw [this]⟩
+
 /-- **C33 (4′)** the same for the task as it is *stored*: the dependencies the executor works on are the
 payload column of the row (what GetPending / GetFailed return, C30 `payload_stable`: never rewritten
 while the task is stored), not a free parameter. -/
